@@ -45,6 +45,10 @@ def modified_cholesky(mat: np.ndarray, max_error: float = 1e-6) -> np.ndarray:
         chol_vecs[nchol + 1] = (mat[nu] - R) / (delta_max + 1e-10) ** 0.5
         nchol += 1
 
+    if abs(delta_max) > max_error:
+        # size cap reached (full rank): the last vector computed is still needed
+        nchol += 1
+
     return chol_vecs[:nchol]
 
 
